@@ -142,6 +142,14 @@ def check(ctx):
         ctx.require(R9, bool(errs) and all(not (set(okb1) & cb0.reachable([e])) for e in errs), c.where(), "a failing hook makes hooks::call fail", ["acmed::hooks::call", "failure-swallowed"])
     from .c10 import status_rule
     status_rule(ctx, R9)
+    # ... and `may fail` is what the configuration says: a hook without `allow_failure` gets the built-in default whatever its types
+    from .hook_table import allow_failure_table
+    aft = allow_failure_table(prog)
+    dflt_af = prog.const("acmed::DEFAULT_HOOK_ALLOW_FAILURE").get("bool")
+    if aft is not None and dflt_af is not None:
+        for types_, got_ in aft:
+            ctx.require(R9, got_ == dflt_af, "acmed/src/config.rs", "a hook of types %s without `allow_failure` resolves with allow_failure = %s (built-in default: %s)" % (types_, got_, dflt_af),
+                        ["acmed::config::Config::get_hook", "allow-failure-default", ",".join(types_)])
 
     R2 = ctx.rule("R2", "no hook for an authorization that is already valid; other non-pending statuses are errors; challenge selection is the identity table")
     # the status tests are read per AuthorizationStatus variant, whatever their form (`==`/`!=` chains, `match`, `if let`):
@@ -175,6 +183,35 @@ def check(ctx):
             r2 = b.reachable_flags(starts, removed_nodes=errb, removed_edges=rem) if starts else set()     # variant-tag sensitive
             ctx.require(R2, bool(tests) and not (set(b.return_blocks()) & r2), at, "any other status (%s) ends the attempt with an error" % v, [RC, "non-pending-not-error"])
     ctx.floor(R2, "tests of auth.status", n_tests, 1)
+    # every pending authorization is solved: the loop body has no gate on what was solved BEFORE (a set / list of seen identifiers):
+    # the authorizations of `example.org` and `*.example.org` carry the same identifier and are both to be solved
+    SEEN = ("insert", "contains", "contains_key", "binary_search", "position", "any", "replace", "get", "entry", "push")
+    scc_ = None
+    for v_ in prog.adt_variants(AST):
+        rem_, nt_ = enum_edges(b, (AUTH, "status"), v_)
+        if rem_:
+            scc_ = b.scc_of(sorted({e[0] for e in rem_})[0])
+            break
+    if scc_:
+        sset = set(scc_)
+        hk_in = {h.bb for h in hooks if h.bb in sset}
+        nx_all = [c_ for c_ in b.calls_to("core::iter::traits::iterator::Iterator::next") if c_.bb in sset]
+        nx_auth = [c_ for c_ in nx_all if ("acmed::acme_proto::structs::order::Order", "authorizations") in arg_origins(c_, 0).fields]
+        nx_in = [c_.bb for c_ in (nx_auth or nx_all)]
+        for u in sorted(sset):
+            t_ = b.term(u)
+            if t_["t"] != "switch" or not hk_in or not nx_in:
+                continue
+            dsl = origins(b, t_["discr"])
+            mem = [x for x in dsl.calls if (x.name or "").rsplit("::", 1)[-1] in SEEN and any(k_ in (x.name or "") for k_ in ("HashSet", "BTreeSet", "HashMap", "BTreeMap", "alloc::vec::Vec", "slice"))
+                   and x.args and not ({(AUTH, "challenges"), ("acmed::acme_proto::structs::order::Order", "authorizations")} & arg_origins(x, 0).fields)]
+            if not mem:
+                continue
+            succs = [w for w in b.succ[u] if w in sset]
+            to_hooks = [w for w in succs if hk_in & b.reachable([w], removed_nodes=nx_in)]
+            skip = [w for w in succs if not (hk_in & b.reachable([w], removed_nodes=nx_in)) and set(nx_in) & b.reachable([w], removed_nodes=list(hk_in))]
+            ctx.require(R2, not (to_hooks and skip), where(b, u), "no authorization is skipped because of a record of earlier ones (%s)" % sorted({x.name.rsplit("::", 2)[-2] + "::" + x.name.rsplit("::", 1)[-1] for x in mem}),
+                        [RC, "authorization-skipped-as-seen"])
     eqk = [k for k in prog.bodies if k.startswith("<" + CH + " as core::cmp::PartialEq<" + SC + ">>::eq")]
     ctx.floor(R2, "PartialEq<structs::Challenge> for Challenge", len(eqk), 1)
     if eqk:
